@@ -318,10 +318,26 @@ end
 
 /-! ## rules and the main loop -/
 
+/-- result of evaluating a pattern expression: a value, or — when the expression calls a function that executes `next` /
+`nextfile` — that signal (`execActions` then abandons the record / file: `isNext`) -/
+inductive PRes
+  | val (b : Bool)
+  | next
+  | nextfile
+
+def PRes.toBool : PRes → Bool
+  | .val b => b
+  | _ => false
+
+def PRes.sig? : PRes → Option Sig
+  | .val _ => none
+  | .next => some .next
+  | .nextfile => some .nextfile
+
 inductive Pat
   | always
-  | pred (c : View → Bool)
-  | range (b e : View → Bool)
+  | pred (c : View → PRes)
+  | range (b e : View → PRes)
 
 structure Rule where
   pat : Pat
@@ -333,16 +349,38 @@ def rangeStep (inRange b e : Bool) : Bool × Bool :=
   let r1 := if !inRange then b else inRange
   (r1, if r1 then !e else r1)
 
+/-- (matched, new flag) from the pattern values (a pattern expression that raised a signal counts as "no value": false) -/
 def matchPat (p : Pat) (flag : Bool) (v : View) : Bool × Bool :=
   match p with
   | .always => (true, flag)
-  | .pred c => (c v, flag)
-  | .range b e => rangeStep flag (b v) (e v)
+  | .pred c => ((c v).toBool, flag)
+  | .range b e => rangeStep flag (b v).toBool (e v).toBool
+
+/-- the signal raised while evaluating the pattern, if any — mirroring which expressions `execActions` evaluates: the begin
+pattern only when the range is closed, the end pattern only when it is open after that -/
+def patSignal (p : Pat) (flag : Bool) (v : View) : Option Sig :=
+  match p with
+  | .always => none
+  | .pred c => (c v).sig?
+  | .range b e =>
+    if flag then (e v).sig?
+    else
+      match (b v).sig? with
+      | some sg => some sg
+      | none => if (b v).toBool then (e v).sig? else none
+
+/-- the signal came from the begin pattern of a closed range: `inRange[i]` has not been assigned -/
+def beginRaises (p : Pat) (flag : Bool) (v : View) : Bool :=
+  match p with
+  | .range b _ => !flag && (b v).sig?.isSome
+  | _ => false
 
 /-- ghost: log the evaluation of a range rule at position `i` -/
 def St.logVisit (s : St) (i : Nat) (p : Pat) (flag : Bool) : St :=
   match p with
-  | .range b e => { s with visits := ⟨i, b s.view, e s.view, (rangeStep flag (b s.view) (e s.view)).1⟩ :: s.visits }
+  | .range b e =>
+    { s with visits := ⟨i, (b s.view).toBool, (e s.view).toBool,
+                         (rangeStep flag (b s.view).toBool (e s.view).toBool).1⟩ :: s.visits }
   | _ => s
 
 /-- the inner `for i, action := range actions` loop of `execActions` for one record; flags run in lockstep with rules;
@@ -351,6 +389,13 @@ def runRules : Nat → List Rule → List Bool → St → Sig × List Bool × St
   | _, [], fl, s => (.normal, fl, s)
   | _, _ :: _, [], s => (.fatal, [], s)
   | i, r :: rs, f :: fl, s0 =>
+    match patSignal r.pat f s0.view with
+    | some sg =>
+      -- next / nextfile raised by a function called from the pattern: the record is abandoned here. When the end pattern
+      -- raised, the begin pattern had already opened the range (`inRange[i]` was assigned).
+      if beginRaises r.pat f s0.view then (sg, f :: fl, s0)
+      else (sg, (matchPat r.pat f s0.view).2 :: fl, s0.logVisit i r.pat f)
+    | none =>
     let (matched, f') := matchPat r.pat f s0.view
     let s := s0.logVisit i r.pat f
     if !matched then
